@@ -528,6 +528,21 @@ def check(ctx):
         for (e, p, kind) in find_sinks(res):
             cls_ = classify_path(p)
             ctx.analysed["call_sites"] += 1
+            if q == "evo.tools.settings.write_to_json_file" and not any(
+                    (c.data.get("target") is not None and
+                     c.data["target"].qualname == q and any(
+                         x.op == "attr" and x.args[1] in ("out", "save_as")
+                         for v in (c.data.get("bound") or {}).values()
+                         for x in v.walk()))
+                    for r_ in results.values() for c in r_.of_kind("call")):
+                # the JSON writer of the settings / config editing commands
+                # (reset, upgrade, set, merge): the file being edited, not
+                # an output — as long as no caller hands it an output option
+                ctx.ob("C17.1", e, True, f"sink {kind} exempt: settings / "
+                       f"config edit helper (subject of C19)",
+                       key=f"C17.1:exempt:{q}:{kind}", nontrivial=False,
+                       path=fmt(p))
+                continue
             if q in EXEMPT_FUNCS:
                 ctx.ob("C17.1", e, True, f"sink {kind} exempt: "
                        f"{EXEMPT_FUNCS[q]}", key=f"C17.1:exempt:{q}:{kind}",
